@@ -87,7 +87,8 @@ def candidates(case):
         for key, neutral in (('window', None), ('timeout', None),
                              ('verbose', False), ('forever', False),
                              ('critical', False), ('sd_timeout', 1.0),
-                             ('build', 'ctor'), ('late_attrs', None)):
+                             ('build', 'ctor'), ('late_attrs', None),
+                             ('ctor_attrs', None)):
             if sched.get(key) != neutral:
                 new = variant()
                 _at(new['spec'], path)[key] = neutral
